@@ -996,6 +996,208 @@ def derived_cases(rng, tier, dv):
     return cs
 
 
+
+# --------------------------------------------------------------------- element()
+class _Ids(object):
+    def __init__(self):
+        self.n = 0
+
+    def new(self):
+        self.n += 1
+        return self.n
+
+
+_FORCE_DT = [None]
+
+
+def _leaf_values(rng, shape, dt):
+    # values must survive conversion to every leaf dtype of the target space unchanged
+    return _rand_data(rng, tuple(shape), _FORCE_DT[0] or dt)
+
+
+def _strictest_dtype(S):
+    dts = [leaf_tsp(l)[1] for l in _leaf_descs(S)]
+    if any(d == 'bool' for d in dts):
+        return 'bool'
+    if any(d.startswith('uint') or d.startswith('int') for d in dts):
+        return 'uint8'
+    return None
+
+
+def _leaf_descs(S):
+    if S[0] == 'prod':
+        return [l for x in S[1] for l in _leaf_descs(x)]
+    return [S]
+
+
+def make_element(rng, X, ctx, ids, how=0):
+    """(python element of a freshly built space X, Coq term of type elem Q)."""
+    oX = build(X, ctx, how)
+    return _make_element_in(rng, X, oX, ids)
+
+
+def _make_element_in(rng, X, oX, ids):
+    if X[0] == 'prod':
+        parts = [_make_element_in(rng, Xi, oXi, ids) for Xi, oXi in zip(X[1], oX.spaces)]
+        x = oX.element([p[0] for p in parts])
+        # the parts of x are the very part objects (they are members of the component spaces)
+        return x, '(EProd %s %s %s)' % (coq_obj(X), zl(ids.new()), C.lst([p[1] for p in parts]))
+    shape, dt, _ = leaf_tsp(X)
+    arr = np.array(_leaf_values(rng, shape, dt), dtype={'U': 'U1'}.get(dt, dt))
+    x = oX.element(arr)
+    data = np.asarray(x).real.astype(float).ravel().tolist()
+    return x, '(ETens %s %s %s)' % (coq_obj(X), zl(ids.new()), C.qs(data))
+
+
+def variant_space(rng, S):
+    """a space with the structure and leaf shapes of S but possibly other dtype / weightings"""
+    if S[0] == 'prod':
+        w = mutate_w(rng, S[2]) if rng.random() < 0.5 else S[2]
+        if w[0] == 'array':
+            w = ('const', 'KPs', 2.0, 2.0)
+        return ('prod', tuple(variant_space(rng, x) for x in S[1]), w, S[3])
+    t = leaf_tsp(S)
+    r = rng.random()
+    if r < 0.3:
+        t2 = t
+    elif r < 0.6:
+        fam = ['float64', 'float32', 'int64', 'int32'] if not t[1].startswith('complex') else ['complex128', 'complex64']
+        t2 = (t[0], rng.choice(fam), t[2] if t[2][0] != 'array' else ('const', 'KNpy', 1.0, 2.0))
+    else:
+        w = mutate_w(rng, t[2])
+        if w[0] == 'array':
+            w = ('const', 'KNpy', 3.0, 2.0)
+        t2 = (t[0], t[1], w)
+    if S[0] == 'discr' and rng.random() < 0.7:
+        return ('discr', S[1], t2)
+    return ('tensor', t2)
+
+
+def gen_input(rng, S, ctx, ids, depth=0):
+    """(python input, Coq term of type inp Q) for space descriptor S."""
+    if S[0] == 'prod':
+        r = rng.random()
+        if r < 0.2:
+            x, term = make_element(rng, S, ctx, ids, rng.choice([0, 1]))
+            return x, '(IElem %s)' % term
+        if r < 0.4:
+            X = variant_space(rng, S)
+            x, term = make_element(rng, X, ctx, ids)
+            return x, '(IElem %s)' % term
+        if r < 0.47:
+            return 1.5, '(IScalar %s)' % C.q(1.5)
+        kids = [gen_input(rng, x, ctx, ids, depth + 1) for x in S[1]]
+        if rng.random() < 0.15:
+            if kids and rng.random() < 0.5:
+                kids = kids[:-1]
+            else:
+                kids = kids + [(1.0, '(IScalar %s)' % C.q(1.0))]
+        return [k[0] for k in kids], '(IList %s)' % C.lst([k[1] for k in kids])
+    shape, dt, w = leaf_tsp(S)
+    shape = tuple(shape)
+    r = rng.random()
+    if r < 0.15:
+        x, term = make_element(rng, S, ctx, ids, rng.choice([0, 1, 2]))
+        return x, '(IElem %s)' % term
+    if r < 0.4:
+        X = variant_space(rng, S)
+        if rng.random() < 0.25 and S[0] == 'discr':
+            X = ('tensor', S[2])                      # an element of the tspace itself
+        if rng.random() < 0.2 and shape:
+            t = leaf_tsp(X)
+            sh2 = shape[1:] if (shape[0] == 1 and rng.random() < 0.5) else (shape[0] + 1,) + shape[1:]
+            X = ('tensor', (sh2, t[1], t[2] if t[2][0] != 'array' else ('const', 'KNpy', 1.0, 2.0)))
+        x, term = make_element(rng, X, ctx, ids)
+        return x, '(IElem %s)' % term
+    # raw data
+    sh = shape
+    k = rng.random()
+    if k < 0.2 and shape and shape[0] == 1:
+        sh = shape[1:]                                # ndmin pads it back
+    elif k < 0.35:
+        sh = shape + (2,) if rng.random() < 0.5 or not shape else (shape[0] + 1,) + shape[1:]
+    arr = _leaf_values(rng, sh, dt)
+    if r < 0.7 or arr.size == 0:
+        adt = rng.choice([dt, dt, 'float64', 'float32']) if dt not in ('bool',) else 'bool'
+        if dt.startswith('complex') and adt == dt:
+            arr = arr.astype(adt)
+        elif dt.startswith('uint') or dt.startswith('int'):
+            arr = arr.astype(rng.choice([dt, 'int64', 'float64']))
+        else:
+            arr = arr.astype(adt)
+        aid = ids.new()
+        data = np.asarray(arr).real.astype(float).ravel().tolist()
+        return arr, '(IArr %s %s %s %s)' % (zl(aid), DTYPES[dtype_name(arr.dtype)], zs(arr.shape), C.qs(data))
+    if arr.ndim == 0:
+        return float(arr), '(IScalar %s)' % C.q(float(arr))
+
+    def lst(a):
+        if a.ndim == 1:
+            return [float(x) for x in a], '(IList %s)' % C.lst(['(IScalar %s)' % C.q(float(x)) for x in a])
+        subs = [lst(b) for b in a]
+        return [u[0] for u in subs], '(IList %s)' % C.lst([u[1] for u in subs])
+    return lst(arr)
+
+
+def _buffer(inp):
+    import odl
+    if isinstance(inp, np.ndarray):
+        return inp
+    if isinstance(inp, odl.set.space.LinearSpaceElement) and not isinstance(inp, odl.space.pspace.ProductSpaceElement):
+        return np.asarray(inp)
+    return None
+
+
+def observe_element(r, inp):
+    import odl
+    if r is inp:
+        return 'BSame'
+    if isinstance(r, odl.space.pspace.ProductSpaceElement):
+        items = list(inp.parts) if isinstance(inp, odl.space.pspace.ProductSpaceElement) else list(inp)
+        return '(BProd %s)' % C.lst([observe_element(p, it) for p, it in zip(r.parts, items)])
+    arr = np.asarray(r)
+    buf = _buffer(inp)
+    shares = buf is not None and buf.size > 0 and bool(np.shares_memory(arr, buf))
+    if buf is not None and buf.size == 0:
+        shares = (buf.dtype == arr.dtype)            # nothing to share: follow the no-copy rule
+    return '(BTens %s %s)' % (C.qs(arr.real.astype(float).ravel().tolist()), C.b(shares))
+
+
+def element_cases(rng, tier, v):
+    cs = C.CaseSet('element', ['C20.Syntax', 'C20.Model', 'C20.Element', 'C20.Corr'], 'checkE', 'caseE')
+    n = 400 if tier == 'quick' else 2500
+    ctx = Ctx()
+    vv = coq_variants(v)
+    ids = _Ids()
+    for _ in range(n):
+        S = gen_space(rng, 2)
+        if not numeric_only(S) or _has_zero_axis(S):
+            continue
+        _FORCE_DT[0] = _strictest_dtype(S)
+        try:
+            oS = build(S, ctx)
+            inp, term = gen_input(rng, S, ctx, ids)
+        except Exception:
+            continue
+        finally:
+            _FORCE_DT[0] = None
+        try:
+            out = observe_element(oS.element(inp), inp)
+        except ValueError:
+            out = 'BValueErr'
+        except TypeError:
+            out = 'BTypeErr'
+        t = '{| x_v := %s; x_S := %s; x_inp := %s; x_out := %s |}' % (vv, coq_obj(S), term, out)
+        cs.add(t, {'S': repr(S)[:300], 'inp': term[:300], 'out': out[:200]}, (repr(S), term))
+    return cs
+
+
+def _has_zero_axis(d):
+    if d[0] == 'prod':
+        return any(_has_zero_axis(x) for x in d[1])
+    return 0 in tuple(leaf_tsp(d)[0])
+
+
 def variant_cases(v):
     cs = C.CaseSet('variants', ['C20.Syntax', 'C20.Model', 'C20.Corr'], 'checkV', 'caseV')
     cs.add('{| cv_v := %s |}' % coq_variants(v), {'variants': v}, None)
@@ -1005,7 +1207,8 @@ def variant_cases(v):
 def correspondence(rng, tier):
     v = measure_variants()
     dv = measure_dvariants()
-    return [eq_cases(rng, tier, v), in_cases(rng, tier, v), derived_cases(rng, tier, dv), variant_cases(v)]
+    return [eq_cases(rng, tier, v), in_cases(rng, tier, v), derived_cases(rng, tier, dv), element_cases(rng, tier, v),
+            variant_cases(v)]
 
 
 # --------------------------------------------------------------------- probes (property oracles, no model)
